@@ -35,7 +35,7 @@ def run(ctx):
                             sc["setvals"] = O.setvals(rnd, oids)
                         S.append(sc)
     ctx.rule = ("every operation x v1/v2c/v3 noAuthNoPriv/authNoPriv/authPriv x error-status in 1..19, 255, -1, 65536, -128 x error-index 0..len+1 x "
-                "{bindings echoed, empty binding list}; walk-style operations with the error injected at the k-th request; non-trivial = accepted trace of a distinct scenario")
+                "{bindings echoed, empty binding list}; walk-style operations (strict and lenient) with the error injected at the k-th request; non-trivial = accepted trace of a distinct scenario")
     O.drive_and_judge(ctx, S)
     W = []
     for proto in ["v2c", "v1", "v3n", "v3a_sha", "v3p_md5"]:
@@ -47,6 +47,11 @@ def run(ctx):
                     roots = [[1]] if api != "multiwalk" else [[1], [2]]
                     W.append(dict(db=[[1, 1, 1], [1, 1, 2], [1, 2, 1], [2, 1, 1]], roots=roots, bulk=bulk, api=api, proto=proto,
                                   err=dict(at=at, es=es, ei=rnd.randint(0, 2))))
+                    if api in ("walk", "multiwalk", "py.walk"):
+                        # lenient mode forgives agents whose OIDs do not increase - not agents that report an error
+                        W.append(dict(W[-1], errors="warn"))
+                    elif api == "bulkwalk":
+                        W.append(dict(W[-1], api="multiwalk_fetcher", errors="warn"))
     O.drive_walks(ctx, W)
     ctx.assumptions = ["the offending OID is judged only when error-index selects a binding (1 <= index <= number of bindings)",
                        "walks end silently on noSuchName (status 2), as documented; every other status must propagate"]
